@@ -629,6 +629,25 @@ class Verifier(Exec):
             ncases += 1
         return ncases
 
+    def derive_node(self, con, st, obj, ctx):
+        """Refresh the derived summaries ($fst, $succ, $wf) of interior node `obj` from its state in
+        `st` (ghost 'derive_obj': the same texts as for the receiver, with `self` bound to obj).
+        -> the clause goals $wf was built from."""
+        d = con.ghost.get("derive_obj")
+        env = dict(st.env)
+        env["self"] = obj
+        goals = {}
+        for k, txt in d["wf"].items():
+            goals[k] = self.spec(txt, ctx, env=env, state=st)
+        for fld, txt in d["texts"].items():
+            v = self.sp(self.spec_expr(txt), st, env, ctx)
+            self.hset(st, fld, obj.z, v.z if v.kind != "none" else z3.IntVal(0))
+        parts = list(goals.values())
+        if d.get("extra"):
+            parts.append(self.spec(d["extra"], ctx, env=env, state=st))
+        self.hset(st, "$wf", obj.z, z3.And(*parts) if parts else z3.BoolVal(True))
+        return goals
+
     def finish_path(self, con, pre, s, o, case):
         ctx = SpecCtx(pre, s)
         # derived ghost fields of the receiver (summaries that are DEFINED by its state, e.g. the
@@ -657,6 +676,12 @@ class Verifier(Exec):
             v = self.sp(self.spec_expr(txt), s, env0, ctx)
             z = v.z if v.kind != "none" else z3.IntVal(0)
             self.hset(s, fld, pre.env["self"].z, z)
+        # the same summaries for a node this function RETURNS (a split's new sibling)
+        dr = con.ghost.get("derive_result")
+        if dr and o is not None and o[0] == "return" and o[1].kind == "ref":
+            goals = self.derive_node(con, s, o[1], ctx)
+            for k, g_ in goals.items():
+                pre_goals[dr + k] = g_
         self._pre_goals = pre_goals
         if o is None:
             o = ("return", NONE)
